@@ -1,65 +1,1469 @@
+// C04 harness: cross-chain transactions are delivered and executed exactly once, in order.
+//
+//	(a) queue:   random and targeted push/pop/read/commit/copy histories on the real StateDB ETX
+//	             queue, compared item by item with the Coq model; monitors: plain Go slice (FIFO),
+//	             ETX root == root of an independently built trie holding exactly the expected cells,
+//	             ETX root equality of a second, different history with the same final content.
+//	(b) blocks:  the ETX discipline of StateProcessor.Process -- as extracted from the current source
+//	             text of core/state_processor.go (order and presence of push / pop / nil check / hash
+//	             comparison / availability probe / the two inclusion guards as expression trees) --
+//	             is interpreted over the real StateDB with real transactions and hashes; monitor:
+//	             accepted <=> the block's ETXs are the next items of (queue ++ parent inbound) and
+//	             the minimum/maximum inclusion rule holds (stated independently here).
+//	(c) routing: the real types.Transactions.FilterToSub / FilterToLocation on every
+//	             (address byte, ETX type) for all contexts/orders and a family of slices; monitor:
+//	             every in-hierarchy destination is selected by exactly one subordinate filter.
 package main
 
 import (
+	"bytes"
 	"fmt"
 	"math/big"
+	"os"
+	"sort"
+	"strings"
 
 	"github.com/dominant-strategies/go-quai/common"
 	"github.com/dominant-strategies/go-quai/core/rawdb"
 	"github.com/dominant-strategies/go-quai/core/state"
 	"github.com/dominant-strategies/go-quai/core/types"
+	"github.com/dominant-strategies/go-quai/crypto"
+	"github.com/dominant-strategies/go-quai/ethdb"
+	"github.com/dominant-strategies/go-quai/log"
+	"github.com/dominant-strategies/go-quai/params"
+	"github.com/dominant-strategies/go-quai/rlp"
+	"github.com/dominant-strategies/go-quai/trie"
 
 	"verifharness/hlib"
 )
 
-func mkEtx(i int, to byte, typ uint64) *types.Transaction {
-	loc := common.Location{0, 0}
-	toA := common.BytesToAddress(append([]byte{to}, make([]byte, 19)...), loc)
-	snd := common.BytesToAddress(append([]byte{0x10}, make([]byte, 19)...), loc)
-	var h common.Hash
-	h[2] = 0x10
-	h[31] = byte(i)
-	return types.NewTx(&types.ExternalTx{OriginatingTxHash: h, ETXIndex: uint16(i), Gas: 21000, To: &toA, Value: big.NewInt(int64(i)), Data: []byte{1, 2}, Sender: snd, EtxType: typ,
-		AccessList: types.AccessList{{Address: toA, StorageKeys: []common.Hash{h}}}})
+var (
+	logger  *log.Logger
+	nodeLoc = common.Location{0, 0}
+	sites   *hlib.C04Sites
+	rep     *hlib.Report
+)
+
+// ---------------------------------------------------------------- case descriptors
+
+type Desc struct {
+	ID    int    `json:"id"`
+	Kind  string `json:"kind"`  // queue block route
+	Shape string `json:"shape"` // targeted shape or "rand"
+	Sub   uint64 `json:"sub"`   // the case is a deterministic function of (kind, shape, sub)
+	Note  string `json:"note,omitempty"`
 }
 
-func main() {
-	lg := hlib.QuietLogs()
-	loc := common.Location{0, 0}
-	db := rawdb.NewMemoryDatabase(lg)
-	sdb := state.NewDatabase(db)
-	edb := state.NewDatabase(db)
-	st, err := state.New(types.EmptyRootHash, types.EmptyRootHash, big.NewInt(0), sdb, edb, nil, loc, lg)
-	fmt.Println(err, st.ETXRoot())
-	e, err := st.PopETX()
-	fmt.Println("pop empty", e, err, st.ETXRoot())
-	fmt.Println(st.PushETXs(nil), st.ETXRoot())
-	var l []*types.Transaction
-	for i := 0; i < 5; i++ {
-		l = append(l, mkEtx(i, 0x00, uint64(i%6)))
+// ---------------------------------------------------------------- ETX universe of one case
+
+type uni struct {
+	r      *hlib.Rng
+	serial int
+	ids    map[common.Hash]int
+}
+
+func newUni(r *hlib.Rng) *uni { return &uni{r: r, ids: map[common.Hash]int{}} }
+
+func addr(prefix byte, qi bool, fill byte) common.Address {
+	b := make([]byte, 20)
+	for i := range b {
+		b[i] = fill
 	}
-	fmt.Println(st.PushETXs(l), st.ETXRoot())
-	o, _ := st.GetOldestIndex()
-	n, _ := st.GetNewestIndex()
-	fmt.Println(o, n)
-	for i := 0; i < 6; i++ {
-		e, err := st.PopETX()
-		if e != nil {
-			fmt.Println(i, e.Hash() == l[i].Hash(), e.Hash(), err)
-		} else {
-			fmt.Println(i, e, err)
+	b[0] = prefix
+	if qi {
+		b[1] |= 0x80
+	} else {
+		b[1] &= 0x7f
+	}
+	return common.BytesToAddress(b, nodeLoc)
+}
+
+func (u *uni) build(serial int, toPrefix byte, toQi bool, typ uint64, value int64, gas uint64, data []byte, al bool, sndPrefix byte, sndQi bool) *types.Transaction {
+	to := addr(toPrefix, toQi, byte(serial))
+	snd := addr(sndPrefix, sndQi, byte(serial>>8))
+	var oh common.Hash
+	oh[0], oh[2] = sndPrefix, sndPrefix
+	oh[28], oh[29], oh[30], oh[31] = byte(serial>>24), byte(serial>>16), byte(serial>>8), byte(serial)
+	inner := &types.ExternalTx{OriginatingTxHash: oh, ETXIndex: uint16(serial), Gas: gas, To: &to, Value: big.NewInt(value), Data: data, Sender: snd, EtxType: typ}
+	if al {
+		inner.AccessList = types.AccessList{{Address: to, StorageKeys: []common.Hash{oh}}}
+	}
+	return types.NewTx(inner)
+}
+
+// mk creates a fresh ETX of a random kind (all six ETX types, Quai and Qi destinations).
+func (u *uni) mk() *types.Transaction {
+	r := u.r
+	u.serial++
+	var data []byte
+	if r.Chance(40) {
+		data = r.Bytes(r.Intn(40))
+	}
+	tx := u.build(u.serial, byte(r.Intn(256)), r.Chance(40), uint64(r.Intn(6)), int64(r.Intn(1<<30)), 21000+uint64(r.Intn(100000)), data, r.Chance(25), byte(r.Intn(256)), r.Chance(40))
+	u.reg(tx)
+	return tx
+}
+
+func (u *uni) reg(tx *types.Transaction) {
+	if _, ok := u.ids[tx.Hash()]; !ok {
+		u.ids[tx.Hash()] = len(u.ids) + 1
+	}
+}
+
+// altered returns an ETX equal to tx except for its value (different hash).
+func (u *uni) altered(tx *types.Transaction) *types.Transaction {
+	to := *tx.To()
+	inner := &types.ExternalTx{OriginatingTxHash: tx.OriginatingTxHash(), ETXIndex: tx.ETXIndex(), Gas: tx.Gas(), To: &to,
+		Value: new(big.Int).Add(tx.Value(), big.NewInt(1)), Data: tx.Data(), Sender: tx.ETXSender(), EtxType: tx.EtxType(), AccessList: tx.AccessList()}
+	n := types.NewTx(inner)
+	u.reg(n)
+	return n
+}
+
+func (u *uni) mkN(n int) []*types.Transaction {
+	l := make([]*types.Transaction, n)
+	for i := range l {
+		l[i] = u.mk()
+	}
+	return l
+}
+
+// payload names a transaction by its hash: the Coq model sees the ETX as these bytes.
+func (u *uni) payload(tx *types.Transaction) string {
+	if tx == nil {
+		return "[]"
+	}
+	id, ok := u.ids[tx.Hash()]
+	if !ok {
+		return "[255;255;255;255]"
+	}
+	return hlib.CoqBytes(big.NewInt(int64(id)).Bytes())
+}
+func (u *uni) payloads(l []*types.Transaction) string {
+	s := make([]string, len(l))
+	for i, tx := range l {
+		s[i] = u.payload(tx)
+	}
+	return hlib.CoqList(s)
+}
+
+// ---------------------------------------------------------------- the real queue
+
+type world struct {
+	db    ethdb.Database
+	sdb   state.Database
+	edb   state.Database
+	st    *state.StateDB
+	fails []string
+}
+
+func beBytes(x *big.Int) []byte { return x.Bytes() }
+
+// newWorld opens a StateDB whose ETX queue is positioned at index o0 (oldest = newest = o0, no
+// item): the state after o0 pushes and o0 pops.
+func newWorld(o0 *big.Int) (*world, error) {
+	w := &world{}
+	w.db = rawdb.NewMemoryDatabase(logger)
+	w.sdb = state.NewDatabase(w.db)
+	w.edb = state.NewDatabase(w.db)
+	root := types.EmptyRootHash
+	if o0.Sign() > 0 {
+		tr, err := w.edb.OpenTrie(types.EmptyRootHash)
+		if err != nil {
+			return nil, err
+		}
+		if err := tr.TryUpdate(sites.Keys["oldestEtxKey"], beBytes(o0)); err != nil {
+			return nil, err
+		}
+		if err := tr.TryUpdate(sites.Keys["newestEtxKey"], beBytes(o0)); err != nil {
+			return nil, err
+		}
+		root, err = tr.Commit(nil)
+		if err != nil {
+			return nil, err
+		}
+		if err := w.edb.TrieDB().Commit(root, false, nil); err != nil {
+			return nil, err
 		}
 	}
-	o, _ = st.GetOldestIndex()
-	n, _ = st.GetNewestIndex()
-	fmt.Println(o, n, st.ETXRoot())
-	r, err := st.CommitEtxs()
-	fmt.Println(r, err, edb.TrieDB().Commit(r, false, nil))
-	st2, err := state.New(types.EmptyRootHash, r, big.NewInt(0), sdb, edb, nil, loc, lg)
-	fmt.Println(err)
-	o, _ = st2.GetOldestIndex()
-	n, _ = st2.GetNewestIndex()
-	fmt.Println(o, n, st2.ETXRoot())
-	x, err := st2.ReadETX(big.NewInt(2))
-	fmt.Println(x, err)
+	st, err := state.New(types.EmptyRootHash, root, big.NewInt(0), w.sdb, w.edb, nil, nodeLoc, logger)
+	if err != nil {
+		return nil, err
+	}
+	w.st = st
+	return w, nil
+}
+
+func (w *world) commitReopen() (common.Hash, error) {
+	before := w.st.ETXRoot()
+	root, err := w.st.CommitEtxs()
+	if err != nil {
+		return root, err
+	}
+	if root != before {
+		return root, fmt.Errorf("CommitEtxs root %x differs from ETXRoot %x", root, before)
+	}
+	if err := w.edb.TrieDB().Commit(root, false, nil); err != nil {
+		return root, err
+	}
+	st, err := state.New(types.EmptyRootHash, root, big.NewInt(0), w.sdb, w.edb, nil, nodeLoc, logger)
+	if err != nil {
+		return root, err
+	}
+	w.st = st
+	if st.ETXRoot() != root {
+		return root, fmt.Errorf("reopened state has ETX root %x, committed %x", st.ETXRoot(), root)
+	}
+	return root, nil
+}
+
+// reference queue: a plain slice
+type refq struct {
+	oldest *big.Int
+	items  []*types.Transaction
+	kquai  *big.Int // nil = never set
+}
+
+func (q *refq) newest() *big.Int {
+	return new(big.Int).Add(q.oldest, big.NewInt(int64(len(q.items))))
+}
+
+// expectedRoot builds, with the plain (non-secure) trie and explicit keccak of the keys, the trie
+// that holds exactly: index.Bytes() -> RLP(etx) for the pending items, the two index cells, the
+// K-Quai cell; and returns its root.
+func expectedRoot(q *refq) (common.Hash, error) {
+	t, err := trie.New(types.EmptyRootHash, trie.NewDatabase(rawdb.NewMemoryDatabase(logger)))
+	if err != nil {
+		return common.Hash{}, err
+	}
+	put := func(k, v []byte) {
+		if len(v) > 0 {
+			t.Update(crypto.Keccak256(k), v)
+		}
+	}
+	idx := new(big.Int).Set(q.oldest)
+	for _, tx := range q.items {
+		enc, err := rlp.EncodeToBytes(tx)
+		if err != nil {
+			return common.Hash{}, err
+		}
+		put(idx.Bytes(), enc)
+		idx.Add(idx, big.NewInt(1))
+	}
+	put(sites.Keys["oldestEtxKey"], q.oldest.Bytes())
+	put(sites.Keys["newestEtxKey"], q.newest().Bytes())
+	if q.kquai != nil {
+		put(sites.Keys["kQuaiKey"], q.kquai.Bytes())
+	}
+	return t.Hash(), nil
+}
+
+// ---------------------------------------------------------------- queue cases
+
+type qop struct {
+	k    string // push push1 pop read oldest newest commit copy setk getk
+	txs  []*types.Transaction
+	idx  *big.Int
+	kval uint64
+}
+
+var boundaryStarts = []string{"0", "0", "0", "1", "250", "254", "255", "256", "65530", "65534", "65535", "65536", "16777214", "4294967295", "18446744073709551614", "340282366920938463463374607431768211455"}
+
+func bigS(s string) *big.Int { x, _ := new(big.Int).SetString(s, 10); return x }
+
+func genQueue(d Desc) (o0 *big.Int, ops []qop, u *uni) {
+	r := hlib.NewRng(d.Sub)
+	u = newUni(r.Fork())
+	push := func(n int) qop { return qop{k: "push", txs: u.mkN(n)} }
+	pops := func(n int) []qop {
+		l := make([]qop, n)
+		for i := range l {
+			l[i] = qop{k: "pop"}
+		}
+		return l
+	}
+	rd := func(s string) qop { return qop{k: "read", idx: bigS(s)} }
+	switch d.Shape {
+	case "empty-pop":
+		return big.NewInt(0), []qop{{k: "pop"}, {k: "oldest"}, {k: "newest"}, rd("0"), {k: "pop"}, {k: "commit"}, {k: "pop"}}, u
+	case "push-empty-list":
+		return big.NewInt(0), []qop{push(0), {k: "newest"}, {k: "pop"}, push(2), push(0), {k: "newest"}, {k: "pop"}, {k: "pop"}, {k: "pop"}, push(0), {k: "oldest"}, {k: "newest"}}, u
+	case "index0-empty-key":
+		return big.NewInt(0), append([]qop{push(1), rd("0"), rd("1"), {k: "commit"}, rd("0"), {k: "pop"}, rd("0"), {k: "oldest"}}, pops(1)...), u
+	case "grow-255-256":
+		ops = []qop{push(3), rd("254"), rd("255"), push(4), rd("255"), rd("256"), rd("257"), {k: "commit"}, {k: "newest"}}
+		ops = append(ops, pops(8)...)
+		ops = append(ops, qop{k: "oldest"}, rd("255"), rd("256"))
+		return big.NewInt(253), ops, u
+	case "grow-65535-65536":
+		ops = []qop{push(9), rd("65535"), rd("65536"), {k: "commit"}, rd("65535"), rd("65536"), {k: "newest"}}
+		ops = append(ops, pops(10)...)
+		ops = append(ops, qop{k: "oldest"}, qop{k: "newest"})
+		return big.NewInt(65531), ops, u
+	case "push300-pop300":
+		ops = []qop{push(300), {k: "newest"}, rd("299"), rd("300"), {k: "commit"}}
+		ops = append(ops, pops(301)...)
+		ops = append(ops, qop{k: "oldest"})
+		return big.NewInt(0), ops, u
+	case "grow-across-256-by-300":
+		ops = []qop{push(300), {k: "newest"}, rd("255"), rd("256"), rd("409")}
+		ops = append(ops, pops(150)...)
+		ops = append(ops, qop{k: "commit"}, qop{k: "oldest"}, push(5))
+		ops = append(ops, pops(156)...)
+		return big.NewInt(110), ops, u
+	case "kquai-tenant":
+		return big.NewInt(0), []qop{{k: "getk"}, {k: "setk", kval: 77}, push(2), {k: "getk"}, {k: "pop"}, {k: "setk", kval: 0}, {k: "getk"}, {k: "pop"}, {k: "setk", kval: 1 << 40}, {k: "commit"}, {k: "getk"}, {k: "pop"}, {k: "newest"}}, u
+	case "push1-vs-push":
+		t := u.mkN(4)
+		return big.NewInt(255), []qop{{k: "push1", txs: t[:1]}, {k: "push", txs: t[1:3]}, {k: "push1", txs: t[3:]}, {k: "newest"}, {k: "pop"}, {k: "pop"}, {k: "pop"}, {k: "pop"}, {k: "pop"}}, u
+	case "copy-diverge":
+		return big.NewInt(3), []qop{push(3), {k: "copy"}, {k: "pop"}, {k: "copy"}, push(1), {k: "commit"}, {k: "copy"}, {k: "pop"}, {k: "pop"}, {k: "pop"}, {k: "pop"}}, u
+	case "huge-index":
+		return bigS("340282366920938463463374607431768211455"), []qop{push(2), {k: "newest"}, {k: "pop"}, {k: "commit"}, {k: "pop"}, {k: "pop"}, {k: "oldest"}}, u
+	}
+	// random history
+	o0 = bigS(boundaryStarts[r.Intn(len(boundaryStarts))])
+	if r.Chance(15) {
+		o0 = new(big.Int).SetUint64(r.Next() >> uint(r.Intn(64)))
+	}
+	n := 1 + r.Intn(40)
+	pending := 0
+	for i := 0; i < n; i++ {
+		switch r.Pick(22, 6, 30, 10, 4, 4, 6, 3, 3, 3) {
+		case 0:
+			k := r.Intn(9)
+			if r.Chance(10) {
+				k = 40 + r.Intn(261)
+			}
+			if r.Chance(6) {
+				k = 0
+			}
+			ops = append(ops, push(k))
+			pending += k
+		case 1:
+			ops = append(ops, qop{k: "push1", txs: u.mkN(1)})
+			pending++
+		case 2:
+			k := 1
+			if r.Chance(30) {
+				k = 1 + r.Intn(pending+2)
+			}
+			ops = append(ops, pops(k)...)
+			pending -= k
+			if pending < 0 {
+				pending = 0
+			}
+		case 3:
+			// around the live window, relative offsets resolved at run time
+			ops = append(ops, qop{k: "read", idx: big.NewInt(int64(r.Intn(pending+5)) - 2), kval: 1})
+		case 4:
+			ops = append(ops, qop{k: "oldest"})
+		case 5:
+			ops = append(ops, qop{k: "newest"})
+		case 6:
+			ops = append(ops, qop{k: "commit"})
+		case 7:
+			ops = append(ops, qop{k: "copy"})
+		case 8:
+			ops = append(ops, qop{k: "setk", kval: r.Next() >> uint(r.Intn(64))})
+		case 9:
+			ops = append(ops, qop{k: "getk"})
+		}
+	}
+	return o0, ops, u
+}
+
+func runQueue(d Desc, cw *hlib.CaseWriter) {
+	o0, ops, u := genQueue(d)
+	rep.Evaluations++
+	rep.Count("queue:shape:" + d.Shape)
+	fail := func(sig, what string) { rep.Fail(sig, what, d) }
+	w, err := newWorld(o0)
+	if err != nil {
+		fail("queue:setup", "cannot open a StateDB with the queue at index "+o0.String()+": "+err.Error())
+		return
+	}
+	ref := &refq{oldest: new(big.Int).Set(o0)}
+	var terms []string
+	popsOK, pushes := 0, 0
+	add := func(op, out string) { terms = append(terms, "("+op+", "+out+")") }
+	checkRoot := func(where string) {
+		want, err := expectedRoot(ref)
+		if err != nil {
+			fail("queue:root:reference", err.Error())
+			return
+		}
+		if got := w.st.ETXRoot(); got != want {
+			fail("queue:root:content", fmt.Sprintf("%s: ETXRoot %x is not the root %x of the trie holding exactly the %d pending items at %s.. and the index cells", where, got, want, len(ref.items), ref.oldest))
+		}
+	}
+	for i, o := range ops {
+		rep.Count("queue:op:" + o.k)
+		func() {
+			defer func() {
+				if p := recover(); p != nil {
+					fail("queue:panic:"+o.k, fmt.Sprintf("op #%d %s panicked: %v", i, o.k, p))
+					add("QCommit", "(ONum 999)")
+				}
+			}()
+			switch o.k {
+			case "push", "push1":
+				pushes += len(o.txs)
+				if o.k == "push" {
+					err = w.st.PushETXs(o.txs)
+					add("QPush "+u.payloads(o.txs), "OUnit")
+					rep.Count(fmt.Sprintf("queue:pushlen:%s", bucket(len(o.txs))))
+				} else {
+					err = w.st.PushETX(o.txs[0])
+					add("QPush1 "+u.payload(o.txs[0]), "OUnit")
+				}
+				if err != nil {
+					fail("queue:push:error", fmt.Sprintf("op #%d push failed: %v", i, err))
+				}
+				ref.items = append(ref.items, o.txs...)
+			case "pop":
+				got, err := w.st.PopETX()
+				if err != nil {
+					fail("queue:pop:error", fmt.Sprintf("op #%d PopETX failed: %v", i, err))
+				}
+				if got != nil {
+					add("QPop", "(OEtx (Some "+u.payload(got)+"))")
+				} else {
+					add("QPop", "(OEtx None)")
+				}
+				// monitor: FIFO against the slice
+				if len(ref.items) == 0 {
+					if got != nil {
+						fail("queue:fifo:pop-on-empty", fmt.Sprintf("op #%d: PopETX on an empty queue returned %x", i, got.Hash()))
+					}
+				} else {
+					want := ref.items[0]
+					ref.items = ref.items[1:]
+					ref.oldest = new(big.Int).Add(ref.oldest, big.NewInt(1))
+					if got == nil {
+						fail("queue:fifo:lost", fmt.Sprintf("op #%d: PopETX returned nothing, %x is pending", i, want.Hash()))
+					} else if got.Hash() != want.Hash() {
+						fail("queue:fifo:order", fmt.Sprintf("op #%d: PopETX returned %x, the oldest pending ETX is %x", i, got.Hash(), want.Hash()))
+					} else {
+						popsOK++
+						if !sameEtx(got, want) {
+							fail("queue:fifo:altered", fmt.Sprintf("op #%d: popped ETX %x differs field-wise from the pushed one", i, got.Hash()))
+						}
+					}
+				}
+			case "read":
+				idx := o.idx
+				if o.kval == 1 { // relative to the current oldest
+					idx = new(big.Int).Add(ref.oldest, o.idx)
+					if idx.Sign() < 0 {
+						idx = big.NewInt(0)
+					}
+				}
+				got, err := w.st.ReadETX(idx)
+				if err != nil {
+					fail("queue:read:error", fmt.Sprintf("op #%d ReadETX(%s) failed: %v", i, idx, err))
+				}
+				if got != nil {
+					add("QRead "+idx.String(), "(OEtx (Some "+u.payload(got)+"))")
+				} else {
+					add("QRead "+idx.String(), "(OEtx None)")
+				}
+				off := new(big.Int).Sub(idx, ref.oldest)
+				var want *types.Transaction
+				if off.Sign() >= 0 && off.IsInt64() && off.Int64() < int64(len(ref.items)) {
+					want = ref.items[off.Int64()]
+				}
+				if (want == nil) != (got == nil) || (want != nil && want.Hash() != got.Hash()) {
+					fail("queue:read", fmt.Sprintf("op #%d ReadETX(%s): got %v, pending item at that index %v", i, idx, hashOf(got), hashOf(want)))
+				}
+			case "oldest":
+				got, err := w.st.GetOldestIndex()
+				if err != nil {
+					fail("queue:index:error", err.Error())
+					got = big.NewInt(0)
+				}
+				add("QOldest", "(ONum "+got.String()+")")
+				if got.Cmp(ref.oldest) != 0 {
+					fail("queue:index:oldest", fmt.Sprintf("op #%d oldest index %s, expected %s", i, got, ref.oldest))
+				}
+			case "newest":
+				got, err := w.st.GetNewestIndex()
+				if err != nil {
+					fail("queue:index:error", err.Error())
+					got = big.NewInt(0)
+				}
+				add("QNewest", "(ONum "+got.String()+")")
+				if got.Cmp(ref.newest()) != 0 {
+					fail("queue:index:newest", fmt.Sprintf("op #%d newest index %s, expected %s", i, got, ref.newest()))
+				}
+			case "commit":
+				checkRoot(fmt.Sprintf("before commit at op #%d", i))
+				if _, err := w.commitReopen(); err != nil {
+					fail("queue:commit", fmt.Sprintf("op #%d commit/reopen: %v", i, err))
+				}
+				add("QCommit", "OUnit")
+			case "copy":
+				w.st = w.st.Copy()
+				add("QCommit", "OUnit")
+			case "setk":
+				v := new(big.Int).SetUint64(o.kval)
+				if err := w.st.UpdateKQuai(v); err != nil {
+					fail("queue:kquai:error", err.Error())
+				}
+				ref.kquai = v
+				add("QSetK "+v.String(), "OUnit")
+			case "getk":
+				got, err := w.st.GetKQuai()
+				if err != nil {
+					fail("queue:kquai:error", err.Error())
+					got = big.NewInt(0)
+				}
+				add("QGetK", "(ONum "+got.String()+")")
+				want := big.NewInt(0)
+				if ref.kquai != nil {
+					want = ref.kquai
+				}
+				if got.Cmp(want) != 0 {
+					fail("queue:kquai:value", fmt.Sprintf("op #%d K-Quai cell reads %s, last written %s", i, got, want))
+				}
+			}
+		}()
+	}
+	checkRoot("end of history")
+	// monitor: a different history with the same final content has the same ETX root
+	if len(ref.items) <= 400 {
+		if err := sameContentOtherHistory(w.st.ETXRoot(), ref, hlib.NewRng(d.Sub^0x5bd1e995)); err != nil {
+			fail("queue:root:history-dependent", err.Error())
+		}
+	}
+	rep.TracesValidated++
+	if popsOK > 0 && pushes > 0 {
+		rep.Nontrivial(fmt.Sprintf("queue/%s/%d", d.Shape, d.Sub))
+	}
+	d.Note = fmt.Sprintf("start index %s, %d ops, %d items pushed, %d popped", o0, len(ops), pushes, popsOK)
+	cw.Add(fmt.Sprintf("CQ %d %s %s", d.ID, o0.String(), hlib.CoqList(terms)), d)
+	rep.Sample(d)
+}
+
+func sameContentOtherHistory(root common.Hash, ref *refq, r *hlib.Rng) error {
+	j := int64(r.Intn(6))
+	if ref.oldest.IsInt64() && ref.oldest.Int64() < j {
+		j = ref.oldest.Int64()
+	}
+	start := new(big.Int).Sub(ref.oldest, big.NewInt(j))
+	w, err := newWorld(start)
+	if err != nil {
+		return err
+	}
+	u := newUni(r.Fork())
+	u.serial = 1 << 20
+	all := append(u.mkN(int(j)), ref.items...)
+	if ref.kquai != nil && r.Bool() {
+		w.st.UpdateKQuai(ref.kquai)
+	}
+	for len(all) > 0 {
+		k := 1 + r.Intn(len(all))
+		if r.Chance(50) && k > 3 {
+			k = 1 + r.Intn(3)
+		}
+		if r.Chance(30) {
+			if err := w.st.PushETX(all[0]); err != nil {
+				return err
+			}
+			k = 1
+		} else if err := w.st.PushETXs(all[:k]); err != nil {
+			return err
+		}
+		all = all[k:]
+		if r.Chance(20) {
+			if _, err := w.commitReopen(); err != nil {
+				return err
+			}
+		}
+	}
+	for i := int64(0); i < j; i++ {
+		if _, err := w.st.PopETX(); err != nil {
+			return err
+		}
+	}
+	if ref.kquai != nil {
+		w.st.UpdateKQuai(ref.kquai)
+	}
+	if got := w.st.ETXRoot(); got != root {
+		return fmt.Errorf("two histories ending with oldest=%s and the same %d pending items have ETX roots %x and %x", ref.oldest, len(ref.items), root, got)
+	}
+	return nil
+}
+
+func hashOf(tx *types.Transaction) string {
+	if tx == nil {
+		return "<nil>"
+	}
+	return tx.Hash().Hex()
+}
+
+func sameEtx(a, b *types.Transaction) bool {
+	if a.Type() != b.Type() || a.EtxType() != b.EtxType() || a.Gas() != b.Gas() || a.ETXIndex() != b.ETXIndex() ||
+		a.OriginatingTxHash() != b.OriginatingTxHash() || a.Value().Cmp(b.Value()) != 0 || !bytes.Equal(a.Data(), b.Data()) {
+		return false
+	}
+	if !bytes.Equal(a.To().Bytes(), b.To().Bytes()) || !bytes.Equal(a.ETXSender().Bytes(), b.ETXSender().Bytes()) {
+		return false
+	}
+	ea, _ := rlp.EncodeToBytes(a.AccessList())
+	eb, _ := rlp.EncodeToBytes(b.AccessList())
+	return bytes.Equal(ea, eb)
+}
+
+func bucket(n int) string {
+	switch {
+	case n == 0:
+		return "0"
+	case n <= 8:
+		return "1-8"
+	case n <= 64:
+		return "9-64"
+	default:
+		return "65-300"
+	}
+}
+
+// ---------------------------------------------------------------- block acceptance
+
+type item struct {
+	tx  *types.Transaction
+	gas uint64
+}
+
+const (
+	vAccept = iota
+	vPopNil
+	vHash
+	vCountRule
+	vGasRule
+	vPushErr
+	vPopErr
+	vPanic
+)
+
+// processETXDiscipline runs, over the real StateDB, the ETX-related statements of
+// StateProcessor.Process in the order in which they occur in the current source text
+// (sites), for a block whose external transactions are blk (with the gas each one is
+// accounted for by its execution).
+func processETXDiscipline(s *hlib.C04Sites, st *state.StateDB, inbound []*types.Transaction, blk []item, num, gasLimit uint64) (verdict int) {
+	defer func() {
+		if p := recover(); p != nil {
+			verdict = vPanic
+		}
+	}()
+	type act struct {
+		name string
+		pos  int
+	}
+	var acts []act
+	for _, a := range []act{{"push", s.PosPush}, {"count", s.PosCount}, {"pop", s.PosPop}, {"nil", s.PosNil}, {"cmp", s.PosCmp},
+		{"oldest", s.PosOldest}, {"read", s.PosRead}, {"avail", s.PosAvail}, {"countrule", s.PosCountRule}, {"gasrule", s.PosGasRule}} {
+		if a.pos > 0 {
+			acts = append(acts, a)
+		}
+	}
+	sort.SliceStable(acts, func(i, j int) bool { return acts[i].pos < acts[j].pos })
+	var (
+		count, gas uint64
+		avail      bool
+		popped     *types.Transaction
+		oldest     = big.NewInt(0)
+		readRes    *types.Transaction
+		cur        *item
+	)
+	exec := func(a act) (int, bool) {
+		switch a.name {
+		case "push":
+			if s.PushGuardLen && len(inbound) == 0 {
+				return 0, false
+			}
+			if !s.PushArgParentInbnd {
+				return 0, false // pushes something that is not the parent's inbound set: nothing we can supply
+			}
+			if err := st.PushETXs(inbound); err != nil {
+				return vPushErr, true
+			}
+		case "count":
+			count++
+		case "pop":
+			e, err := st.PopETX()
+			if err != nil && s.PopErrReturns {
+				return vPopErr, true
+			}
+			popped = e
+		case "nil":
+			if popped == nil && s.NilReturnsErr {
+				return vPopNil, true
+			}
+		case "cmp":
+			differ := popped.Hash() != cur.tx.Hash() // nil popped => panic, as in the code
+			cond := differ
+			if s.CmpOp == "==" {
+				cond = !differ
+			}
+			if cond && s.CmpReturnsErr {
+				return vHash, true
+			}
+		case "oldest":
+			o, err := st.GetOldestIndex()
+			if err != nil {
+				return vPopErr, true
+			}
+			oldest = o
+		case "read":
+			idx := oldest
+			if !s.ReadArgIsOldest {
+				idx = big.NewInt(0)
+			}
+			e, err := st.ReadETX(idx)
+			if err != nil {
+				return vPopErr, true
+			}
+			readRes = e
+		case "avail":
+			if readRes != nil {
+				avail = true
+			}
+		case "countrule":
+			if s.CountRule != nil && s.CountRule.EvalB(hlib.C04Env{Num: num, Count: count, Gas: gas, GasLimit: gasLimit, Avail: avail}) && s.CountRuleReturnsErr {
+				return vCountRule, true
+			}
+		case "gasrule":
+			if s.GasRule != nil && s.GasRule.EvalB(hlib.C04Env{Num: num, Count: count, Gas: gas, GasLimit: gasLimit, Avail: avail}) && s.GasRuleReturnsErr {
+				return vGasRule, true
+			}
+		}
+		return 0, false
+	}
+	for _, a := range acts {
+		if a.pos < s.PosLoop {
+			if v, stop := exec(a); stop {
+				return v
+			}
+		}
+	}
+	for i := range blk {
+		cur = &blk[i]
+		popped = nil
+		for _, a := range acts {
+			if a.pos >= s.PosLoop && a.pos <= s.PosLoopEnd {
+				if v, stop := exec(a); stop {
+					return v
+				}
+			}
+		}
+		gas += cur.gas // execution of the ETX accounts its gas after the checks
+	}
+	for _, a := range acts {
+		if a.pos > s.PosLoopEnd {
+			if v, stop := exec(a); stop {
+				return v
+			}
+		}
+	}
+	return vAccept
+}
+
+type blockCase struct {
+	o0           *big.Int
+	pre, inbound []*types.Transaction
+	blk          []item
+	num, gl      uint64
+}
+
+var blockShapes = []string{"prefix", "prefix", "prefix-all", "empty-block", "permuted", "duplicated", "unknown", "altered", "too-long", "skip-first", "inbound-first", "rand"}
+
+func genBlock(d Desc) (blockCase, *uni) {
+	r := hlib.NewRng(d.Sub)
+	u := newUni(r.Fork())
+	T := params.TimeToStartTx
+	c := blockCase{}
+	c.o0 = bigS(boundaryStarts[r.Intn(len(boundaryStarts))])
+	early := r.Chance(50)
+	if early {
+		c.num = []uint64{0, 1, T - 1, T}[r.Intn(4)]
+	} else {
+		c.num = []uint64{T + 1, T + 2, 2 * T, 1 << 40}[r.Intn(4)]
+	}
+	c.gl = []uint64{5000000, 5000004, 12000000, 30000000, 7}[r.Pick(5, 2, 2, 2, 1)]
+	minC, maxC := int(params.MinEtxCount), int(params.MaxEtxCount)
+	// queue sizes around the count window
+	nq := []int{0, 1, 3, minC - 1, minC, minC + 1, maxC, maxC + 1, maxC + 20, 8}[r.Intn(10)]
+	if !early && r.Chance(60) {
+		nq = r.Intn(12)
+	}
+	npre := 0
+	if nq > 0 {
+		npre = r.Intn(nq + 1)
+	}
+	if r.Chance(20) {
+		npre = nq // empty parent inbound set
+	}
+	c.pre = u.mkN(npre)
+	c.inbound = u.mkN(nq - npre)
+	q := append(append([]*types.Transaction{}, c.pre...), c.inbound...)
+	// how many to take
+	k := 0
+	if nq > 0 {
+		k = []int{0, 1, nq, nq - 1, minC - 1, minC, maxC, maxC + 1, r.Intn(nq + 1)}[r.Intn(9)]
+		if k > nq {
+			k = nq
+		}
+		if k < 0 {
+			k = 0
+		}
+	}
+	take := func(l []*types.Transaction) []item {
+		it := make([]item, len(l))
+		for i, tx := range l {
+			it[i] = item{tx: tx}
+		}
+		return it
+	}
+	shape := d.Shape
+	if shape == "rand" {
+		shape = blockShapes[r.Intn(len(blockShapes)-1)]
+	}
+	switch shape {
+	case "prefix":
+		c.blk = take(q[:k])
+	case "prefix-all":
+		c.blk = take(q)
+	case "empty-block":
+		c.blk = nil
+	case "permuted":
+		c.blk = take(q[:k])
+		if len(c.blk) >= 2 {
+			i, j := r.Intn(len(c.blk)), r.Intn(len(c.blk))
+			c.blk[i], c.blk[j] = c.blk[j], c.blk[i]
+		}
+	case "duplicated":
+		c.blk = take(q[:k])
+		if len(c.blk) >= 1 {
+			i := r.Intn(len(c.blk))
+			dup := c.blk[i]
+			pos := i + 1
+			if r.Bool() {
+				pos = len(c.blk)
+			}
+			c.blk = append(c.blk[:pos], append([]item{dup}, c.blk[pos:]...)...)
+		}
+	case "unknown":
+		c.blk = take(q[:k])
+		pos := r.Intn(len(c.blk) + 1)
+		c.blk = append(c.blk[:pos], append([]item{{tx: u.mk()}}, c.blk[pos:]...)...)
+	case "altered":
+		c.blk = take(q[:k])
+		if len(c.blk) >= 1 {
+			i := r.Intn(len(c.blk))
+			c.blk[i] = item{tx: u.altered(c.blk[i].tx)}
+		}
+	case "too-long":
+		c.blk = take(q)
+		c.blk = append(c.blk, item{tx: u.mk()})
+	case "skip-first":
+		if len(q) >= 1 {
+			c.blk = take(q[1:])
+		}
+	case "inbound-first":
+		c.blk = take(append(append([]*types.Transaction{}, c.inbound...), c.pre...))
+	}
+	// gas accounted per ETX: aim the total at the boundaries of the gas window
+	minG := c.gl / uint64(params.MinimumEtxGasDivisor)
+	maxG := minG * uint64(params.MaximumEtxGasMultiplier)
+	if n := uint64(len(c.blk)); n > 0 {
+		target := []uint64{0, minG - 1, minG, minG + 1, maxG - 1, maxG, maxG + 1, 21000 * n, maxG * 3}[r.Intn(9)]
+		if minG == 0 && target > maxG*3+1 {
+			target = 0
+		}
+		each := target / n
+		for i := range c.blk {
+			c.blk[i].gas = each
+		}
+		c.blk[len(c.blk)-1].gas += target - each*n
+	}
+	return c, u
+}
+
+func runBlock(d Desc, cw *hlib.CaseWriter) {
+	c, u := genBlock(d)
+	rep.Evaluations++
+	rep.Count("block:shape:" + d.Shape)
+	fail := func(sig, what string) { rep.Fail(sig, what, d) }
+	w, err := newWorld(c.o0)
+	if err != nil {
+		fail("block:setup", err.Error())
+		return
+	}
+	// the queue as left by the previous block (committed, reopened at its ETX root as Process does)
+	if err := w.st.PushETXs(c.pre); err != nil {
+		fail("block:setup", err.Error())
+		return
+	}
+	if _, err := w.commitReopen(); err != nil {
+		fail("block:setup", err.Error())
+		return
+	}
+	verdict := processETXDiscipline(sites, w.st, c.inbound, c.blk, c.num, c.gl)
+	oldest, _ := w.st.GetOldestIndex()
+	newest, _ := w.st.GetNewestIndex()
+	rep.Count(fmt.Sprintf("block:verdict:%d", verdict))
+
+	// ---- monitor: the property's own predicate, stated on lists of hashes
+	q := append(append([]*types.Transaction{}, c.pre...), c.inbound...)
+	next, belowMin, aboveMax, total := inclusionPredicate(q, c.blk, c.num, c.gl)
+	n := uint64(len(c.blk))
+	accepted := verdict == vAccept
+	switch {
+	case accepted && !next:
+		fail("process:accepted-not-next-items", fmt.Sprintf("a block whose %d ETXs are not the next items of the queue (%d queued + %d parent inbound; shape %s) passes the ETX checks of Process", len(c.blk), len(c.pre), len(c.inbound), d.Shape))
+	case accepted && belowMin:
+		fail("process:min-inclusion-not-enforced", fmt.Sprintf("a block with %d ETXs / %d ETX gas is accepted although the queue stays non-empty (block %d, gas limit %d)", n, total, c.num, c.gl))
+	case accepted && aboveMax:
+		fail("process:max-inclusion-not-enforced", fmt.Sprintf("a block with %d ETXs / %d ETX gas exceeds the maximum and is accepted (block %d, gas limit %d)", n, total, c.num, c.gl))
+	case !accepted && next && !belowMin && !aboveMax:
+		fail("process:rejected-next-items", fmt.Sprintf("a block containing exactly the next %d items within the inclusion window is refused (verdict class %d)", n, verdict))
+	case verdict >= vPushErr:
+		fail("process:error-or-panic", fmt.Sprintf("ETX discipline of Process ended in class %d (5 push error, 6 pop/read error, 7 panic)", verdict))
+	}
+	if accepted && next {
+		// consumed exactly those items: the rest is still there, in order
+		wantOld := new(big.Int).Add(c.o0, big.NewInt(int64(len(c.blk))))
+		wantNew := new(big.Int).Add(c.o0, big.NewInt(int64(len(q))))
+		if oldest.Cmp(wantOld) != 0 || newest.Cmp(wantNew) != 0 {
+			fail("process:queue-after-accept", fmt.Sprintf("after acceptance the queue is [%s,%s), expected [%s,%s)", oldest, newest, wantOld, wantNew))
+		}
+		ref := &refq{oldest: wantOld, items: q[len(c.blk):]}
+		if want, err := expectedRoot(ref); err == nil && want != w.st.ETXRoot() {
+			fail("process:root-after-accept", fmt.Sprintf("ETX root after acceptance %x does not commit exactly the %d remaining items (%x)", w.st.ETXRoot(), len(ref.items), want))
+		}
+	}
+	rep.TracesValidated++
+	rep.Nontrivial(fmt.Sprintf("block/%s/%d", d.Shape, d.Sub))
+	items := make([]string, len(c.blk))
+	for i, it := range c.blk {
+		items[i] = "(" + u.payload(it.tx) + ", " + hlib.CoqN(it.gas) + ")"
+	}
+	d.Note = fmt.Sprintf("queue at %s: %d queued + %d inbound, block of %d ETXs, gas %d, block number %d, gas limit %d -> verdict %d", c.o0, len(c.pre), len(c.inbound), len(c.blk), total, c.num, c.gl, verdict)
+	cw.Add(fmt.Sprintf("CB %d %s %s %s %s %d %d %d %s %s", d.ID, c.o0, u.payloads(c.pre), u.payloads(c.inbound), hlib.CoqList(items), c.num, c.gl, verdict, oldest, newest), d)
+	rep.Sample(d)
+}
+
+// inclusionPredicate is the property's own statement about one block: are the block's ETXs exactly
+// the next items of q (by hash), and does the block respect the minimum / maximum inclusion rule.
+func inclusionPredicate(q []*types.Transaction, blk []item, num, gl uint64) (next, belowMin, aboveMax bool, total uint64) {
+	next = len(blk) <= len(q)
+	if next {
+		for i := range blk {
+			if blk[i].tx.Hash() != q[i].Hash() {
+				next = false
+				break
+			}
+		}
+	}
+	for _, it := range blk {
+		total += it.gas
+	}
+	remaining := len(q) > len(blk)
+	n := uint64(len(blk))
+	minG := gl / uint64(params.MinimumEtxGasDivisor)
+	maxG := minG * uint64(params.MaximumEtxGasMultiplier)
+	if num <= params.TimeToStartTx {
+		belowMin = remaining && n < uint64(params.MinEtxCount)
+		aboveMax = n > uint64(params.MaxEtxCount)
+	} else {
+		belowMin = remaining && total < minG
+		aboveMax = total > maxG
+	}
+	return
+}
+
+// ---------------------------------------------------------------- chains of blocks
+
+type candidate struct {
+	blk     []item
+	num, gl uint64
+	next    []*types.Transaction
+}
+
+func genChain(d Desc) (o0 *big.Int, inb0 []*types.Transaction, cs []candidate, u *uni) {
+	r := hlib.NewRng(d.Sub)
+	u = newUni(r.Fork())
+	o0 = bigS(boundaryStarts[r.Intn(len(boundaryStarts))])
+	inb0 = u.mkN(r.Intn(7))
+	T := params.TimeToStartTx
+	var queue []*types.Transaction // pushed, pending
+	cur := inb0                    // inbound set of the head, not yet pushed
+	num := T + 1 + uint64(r.Intn(1000))
+	nc := 1 + r.Intn(8)
+	for i := 0; i < nc; i++ {
+		q := append(append([]*types.Transaction{}, queue...), cur...)
+		c := candidate{num: num, gl: []uint64{5000000, 12000000}[r.Intn(2)]}
+		if r.Chance(8) {
+			c.num = uint64(r.Intn(int(T)))
+		}
+		k := r.Intn(len(q) + 1)
+		if r.Chance(40) {
+			k = len(q)
+		}
+		for _, tx := range q[:k] {
+			c.blk = append(c.blk, item{tx: tx})
+		}
+		switch r.Pick(70, 6, 6, 6, 6, 6) {
+		case 1:
+			if len(c.blk) >= 2 {
+				c.blk[0], c.blk[len(c.blk)-1] = c.blk[len(c.blk)-1], c.blk[0]
+			}
+		case 2:
+			if len(c.blk) >= 1 {
+				c.blk = append(c.blk, c.blk[r.Intn(len(c.blk))])
+			}
+		case 3:
+			c.blk = append(c.blk, item{tx: u.mk()})
+		case 4:
+			if len(c.blk) >= 1 {
+				j := r.Intn(len(c.blk))
+				c.blk[j] = item{tx: u.altered(c.blk[j].tx)}
+			}
+		case 5:
+			if len(q) >= 2 {
+				c.blk = []item{{tx: q[1]}}
+			}
+		}
+		minG := c.gl / uint64(params.MinimumEtxGasDivisor)
+		maxG := minG * uint64(params.MaximumEtxGasMultiplier)
+		if n := uint64(len(c.blk)); n > 0 {
+			target := minG + uint64(r.Intn(int(maxG-minG+1)))
+			switch r.Pick(80, 7, 7, 6) {
+			case 1:
+				target = minG - 1
+			case 2:
+				target = maxG + 1
+			case 3:
+				target = 21000 * n
+			}
+			each := target / n
+			for j := range c.blk {
+				c.blk[j].gas = each
+			}
+			c.blk[len(c.blk)-1].gas += target - each*n
+		}
+		c.next = u.mkN(r.Intn(6))
+		cs = append(cs, c)
+		if next, below, above, _ := inclusionPredicate(q, c.blk, c.num, c.gl); next && !below && !above {
+			queue = q[len(c.blk):]
+			cur = c.next
+			num++
+		}
+	}
+	return
+}
+
+func runChain(d Desc, cw *hlib.CaseWriter) {
+	o0, inb0, cs, u := genChain(d)
+	rep.Evaluations++
+	rep.Count("chain:len:" + fmt.Sprint(len(cs)))
+	fail := func(sig, what string) { rep.Fail(sig, what, d) }
+	w, err := newWorld(o0)
+	if err != nil {
+		fail("chain:setup", err.Error())
+		return
+	}
+	headRoot := w.st.ETXRoot()
+	var queue, executed, delivered []*types.Transaction
+	delivered = append(delivered, inb0...)
+	cur := inb0
+	var verdicts []string
+	accepted := 0
+	for i, c := range cs {
+		// Process opens the state at the parent's committed ETX-set root
+		st, err := state.New(types.EmptyRootHash, headRoot, big.NewInt(0), w.sdb, w.edb, nil, nodeLoc, logger)
+		if err != nil {
+			fail("chain:reopen", fmt.Sprintf("candidate %d: cannot open the state at the head's ETX root: %v", i, err))
+			return
+		}
+		v := processETXDiscipline(sites, st, cur, c.blk, c.num, c.gl)
+		verdicts = append(verdicts, fmt.Sprint(v))
+		rep.Count(fmt.Sprintf("chain:verdict:%d", v))
+		q := append(append([]*types.Transaction{}, queue...), cur...)
+		next, below, above, _ := inclusionPredicate(q, c.blk, c.num, c.gl)
+		want := next && !below && !above
+		if (v == vAccept) != want {
+			sig := "process:rejected-next-items"
+			if v == vAccept {
+				sig = "process:accepted-not-next-items"
+				if next {
+					sig = "process:min-inclusion-not-enforced"
+					if above {
+						sig = "process:max-inclusion-not-enforced"
+					}
+				}
+			}
+			fail(sig, fmt.Sprintf("chain candidate %d (%d ETXs on %d pending): verdict class %d, the property's predicate says accept=%v", i, len(c.blk), len(q), v, want))
+		}
+		if v == vAccept {
+			root, err := st.CommitEtxs()
+			if err == nil {
+				err = w.edb.TrieDB().Commit(root, false, nil)
+			}
+			if err != nil {
+				fail("chain:commit", err.Error())
+				return
+			}
+			headRoot = root
+			accepted++
+			for _, it := range c.blk {
+				executed = append(executed, it.tx)
+			}
+			if len(c.blk) <= len(q) {
+				queue = q[len(c.blk):]
+			} else {
+				queue = nil
+			}
+			cur = c.next
+			delivered = append(delivered, c.next...)
+		}
+	}
+	st, err := state.New(types.EmptyRootHash, headRoot, big.NewInt(0), w.sdb, w.edb, nil, nodeLoc, logger)
+	if err != nil {
+		fail("chain:reopen", err.Error())
+		return
+	}
+	oldest, _ := st.GetOldestIndex()
+	newest, _ := st.GetNewestIndex()
+	// monitor: executed ++ still pending == delivered, in order, each once (by hash)
+	all := append(append(append([]*types.Transaction{}, executed...), queue...), cur...)
+	ok := len(all) == len(delivered)
+	for i := 0; ok && i < len(all); i++ {
+		ok = all[i].Hash() == delivered[i].Hash()
+	}
+	if !ok {
+		fail("chain:exactly-once", fmt.Sprintf("after %d accepted blocks: executed (%d) ++ pending (%d+%d) is not the sequence of the %d delivered ETXs", accepted, len(executed), len(queue), len(cur), len(delivered)))
+	}
+	ref := &refq{oldest: new(big.Int).Add(o0, big.NewInt(int64(len(executed)))), items: queue}
+	if want, err := expectedRoot(ref); err == nil && want != headRoot && ok {
+		fail("chain:root", fmt.Sprintf("head ETX root %x does not commit exactly the %d pending items from index %s (%x)", headRoot, len(queue), ref.oldest, want))
+	}
+	rep.TracesValidated++
+	if accepted > 0 {
+		rep.Nontrivial(fmt.Sprintf("chain/%d", d.Sub))
+	}
+	terms := make([]string, len(cs))
+	for i, c := range cs {
+		items := make([]string, len(c.blk))
+		for j, it := range c.blk {
+			items[j] = "(" + u.payload(it.tx) + ", " + hlib.CoqN(it.gas) + ")"
+		}
+		terms[i] = fmt.Sprintf("(%s, %d, %d, %s)", hlib.CoqList(items), c.num, c.gl, u.payloads(c.next))
+	}
+	d.Note = fmt.Sprintf("queue at %s, %d candidate blocks, %d accepted, verdicts %v", o0, len(cs), accepted, verdicts)
+	cw.Add(fmt.Sprintf("CC %d %s %s %s %s %s %s", d.ID, o0, u.payloads(inb0), hlib.CoqList(terms), hlib.CoqList(verdicts), oldest, newest), d)
+	rep.Sample(d)
+}
+
+// ---------------------------------------------------------------- routing
+
+var allTxs types.Transactions
+var allIdx map[*types.Transaction]int
+
+func buildAllTxs() {
+	allIdx = map[*types.Transaction]int{}
+	u := newUni(hlib.NewRng(1))
+	for p := 0; p < 256; p++ {
+		for ty := 0; ty < 6; ty++ {
+			tx := u.build(len(allTxs)+1, byte(p), p%2 == 1, uint64(ty), 1, 21000, nil, false, 0x00, false)
+			allIdx[tx] = len(allTxs)
+			allTxs = append(allTxs, tx)
+		}
+	}
+}
+
+func coqLoc(l common.Location) string { return hlib.CoqBytes([]byte(l)) }
+
+func routeSlices() []common.Location {
+	ls := []common.Location{{}, {0, 0, 0}, {16, 0}, {1, 16}}
+	for _, r := range []byte{0, 1, 2, 3, 15} {
+		ls = append(ls, common.Location{r})
+		for _, z := range []byte{0, 1, 2, 3, 15} {
+			ls = append(ls, common.Location{r, z})
+		}
+	}
+	return ls
+}
+
+func runRouteX(d Desc, slice common.Location, ctx, order int, cw *hlib.CaseWriter) {
+	rep.Evaluations++
+	rep.Count(fmt.Sprintf("route:ctx%d:order%d", ctx, order))
+	var sel []string
+	func() {
+		defer func() {
+			if p := recover(); p != nil {
+				rep.Fail("route:panic", fmt.Sprintf("FilterToSub(%v,%d,%d) panicked: %v", slice, ctx, order, p), d)
+			}
+		}()
+		got := allTxs.FilterToSub(slice, ctx, order)
+		last := -1
+		for _, tx := range got {
+			i, ok := allIdx[tx]
+			if !ok || i <= last {
+				rep.Fail("route:filter-output", "FilterToSub returned a transaction that was not in its input, or out of order", d)
+				continue
+			}
+			last = i
+			sel = append(sel, fmt.Sprint(i))
+		}
+		if len(got) > 0 {
+			rep.Nontrivial(fmt.Sprintf("route/%v/%d/%d", slice, ctx, order))
+		}
+	}()
+	rep.TracesValidated++
+	d.Note = fmt.Sprintf("FilterToSub(slice=%v, nodeCtx=%d, order=%d) on all 256x6 (address byte, ETX type): %d selected", []byte(slice), ctx, order, len(sel))
+	cw.Add(fmt.Sprintf("CRX %d %s %d %d %s", d.ID, coqLoc(slice), ctx, order, hlib.CoqList(sel)), d)
+}
+
+func runLocX(d Desc, l common.Location, cw *hlib.CaseWriter) {
+	rep.Evaluations++
+	rep.Count("route:FilterToLocation")
+	var sel []string
+	for _, tx := range allTxs.FilterToLocation(l) {
+		sel = append(sel, fmt.Sprint(allIdx[tx]))
+	}
+	rep.TracesValidated++
+	d.Note = fmt.Sprintf("FilterToLocation(%v): %d selected", []byte(l), len(sel))
+	cw.Add(fmt.Sprintf("CLX %d %s %s", d.ID, coqLoc(l), hlib.CoqList(sel)), d)
+}
+
+// random explicit lists with arbitrary ETX type values
+func runRouteRand(d Desc, cw *hlib.CaseWriter) {
+	r := hlib.NewRng(d.Sub)
+	u := newUni(r.Fork())
+	n := 1 + r.Intn(30)
+	var txs types.Transactions
+	var pairs []string
+	for i := 0; i < n; i++ {
+		ty := uint64(r.Intn(8))
+		if r.Chance(15) {
+			ty = r.Next()
+		}
+		p := byte(r.Intn(256))
+		if r.Chance(50) {
+			p = byte(r.Intn(3)<<4 | r.Intn(3))
+		}
+		txs = append(txs, u.build(i+1, p, r.Bool(), ty, 5, 21000, nil, false, 0, false))
+		pairs = append(pairs, fmt.Sprintf("(%d, %d)", p, ty))
+	}
+	ss := routeSlices()
+	slice := ss[r.Intn(len(ss))]
+	ctx, order := r.Intn(3), r.Intn(3)
+	rep.Evaluations++
+	rep.Count("route:rand")
+	in := map[*types.Transaction]bool{}
+	if r.Chance(80) {
+		for _, tx := range txs.FilterToSub(slice, ctx, order) {
+			in[tx] = true
+		}
+		flags := make([]string, n)
+		for i, tx := range txs {
+			flags[i] = hlib.CoqBool(in[tx])
+		}
+		cw.Add(fmt.Sprintf("CR %d %s %d %d %s %s", d.ID, coqLoc(slice), ctx, order, hlib.CoqList(pairs), hlib.CoqList(flags)), d)
+	} else {
+		for _, tx := range txs.FilterToLocation(slice) {
+			in[tx] = true
+		}
+		flags := make([]string, n)
+		for i, tx := range txs {
+			flags[i] = hlib.CoqBool(in[tx])
+		}
+		cw.Add(fmt.Sprintf("CL %d %s %s %s", d.ID, coqLoc(slice), hlib.CoqList(pairs), hlib.CoqList(flags)), d)
+	}
+	rep.TracesValidated++
+}
+
+// monitor: every ETX whose destination lies in a WxZ hierarchy is selected by exactly one
+// region filter at prime and, inside that region, by exactly one zone filter (at prime order
+// for every type, at region order for the standard types), and by none that is not its
+// destination.
+func routeMonitor() {
+	for _, dim := range [][2]int{{3, 3}, {1, 1}, {16, 16}, {2, 4}} {
+		W, Z := dim[0], dim[1]
+		primeSel := map[*types.Transaction][]int{}
+		for r := 0; r < W; r++ {
+			for _, order := range []int{0, 1, 2} {
+				got := allTxs.FilterToSub(common.Location{byte(r), 0}, common.PRIME_CTX, order)
+				if order == 0 {
+					for _, tx := range got {
+						primeSel[tx] = append(primeSel[tx], r)
+					}
+				}
+			}
+		}
+		zoneSel := map[int]map[*types.Transaction][][2]int{0: {}, 1: {}}
+		for r := 0; r < W; r++ {
+			for z := 0; z < Z; z++ {
+				for _, order := range []int{0, 1} {
+					for _, tx := range allTxs.FilterToSub(common.Location{byte(r), byte(z)}, common.REGION_CTX, order) {
+						zoneSel[order][tx] = append(zoneSel[order][tx], [2]int{r, z})
+					}
+				}
+			}
+		}
+		for _, tx := range allTxs {
+			loc := *tx.To().Location()
+			r, z := int(loc[0]), int(loc[1])
+			c := map[string]any{"id": -1, "kind": "route", "shape": fmt.Sprintf("monitor %dx%d", W, Z), "to": fmt.Sprintf("%x", tx.To().Bytes()[0]), "etxType": tx.EtxType()}
+			wantP := 0
+			if r < W {
+				wantP = 1
+			}
+			if len(primeSel[tx]) != wantP || (wantP == 1 && primeSel[tx][0] != r) {
+				rep.Fail("route:prime-partition", fmt.Sprintf("ETX to region %d zone %d (type %d) is selected by the prime-level filters of regions %v in a %dx%d hierarchy", r, z, tx.EtxType(), primeSel[tx], W, Z), c)
+			}
+			standard := tx.EtxType() != types.CoinbaseType && tx.EtxType() != types.ConversionType
+			for _, order := range []int{0, 1} {
+				want := 0
+				if r < W && z < Z && (order == 0 || standard) {
+					want = 1
+				}
+				got := zoneSel[order][tx]
+				if len(got) != want || (want == 1 && got[0] != [2]int{r, z}) {
+					rep.Fail("route:region-partition", fmt.Sprintf("ETX to region %d zone %d (type %d) is selected by the region-level filters of zones %v at order %d in a %dx%d hierarchy", r, z, tx.EtxType(), got, order, W, Z), c)
+				}
+			}
+		}
+	}
+}
+
+// ---------------------------------------------------------------- main
+
+func main() {
+	f := hlib.ParseFlags()
+	logger = hlib.QuietLogs()
+	rep = hlib.NewReport("C04", "cases: (queue) push/pop/read/commit/copy histories on the real StateDB ETX queue started at boundary indices; "+
+		"(block) the ETX discipline of Process as read from the current source, interpreted over the real StateDB for blocks whose ETX section is a prefix / permuted / duplicated / unknown / altered / too long list with counts and gas around the inclusion window; "+
+		"(route) FilterToSub/FilterToLocation on all 256x6 (address byte, ETX type). non-trivial = queue history with at least one pushed and one successfully popped item, every block case, every routing case that selects something; distinct by (kind, shape, sub-seed)")
+	repo := os.Getenv("VERIF_REPO")
+	if repo == "" {
+		repo = "/repo"
+	}
+	var err error
+	sites, err = hlib.ExtractC04Sites(repo, hlib.C04Params())
+	if err != nil {
+		fmt.Fprintln(os.Stderr, "cannot read the sources:", err)
+		os.Exit(1)
+	}
+	for _, p := range sites.Problems {
+		rep.Fail("process-sites:"+strings.SplitN(p, ":", 2)[0]+":"+classOf(p), "the ETX discipline could not be located in the source: "+p, map[string]any{"id": -2, "kind": "sites"})
+		rep.Note("sites: " + p)
+	}
+	for _, k := range []string{"newestEtxKey", "oldestEtxKey", "kQuaiKey"} {
+		if len(sites.Keys[k]) != 32 {
+			fmt.Fprintln(os.Stderr, "control-cell key not found in statedb.go:", k)
+			sites.Keys[k] = make([]byte, 32)
+		}
+	}
+	cw := hlib.NewCaseWriter(f.Out, "From Coq Require Import List NArith Bool.\nFrom GQ Require Import Lib.Key Lib.SMap Model.C04.\nImport ListNotations.\nLocal Open Scope N_scope.\n", "C04.case", 100)
+	buildAllTxs()
+
+	if f.Replay != "" {
+		var d Desc
+		hlib.ReadReplayCase(f.Replay, &d)
+		switch d.Kind {
+		case "queue":
+			runQueue(d, cw)
+		case "block":
+			runBlock(d, cw)
+		case "chain":
+			runChain(d, cw)
+		case "e2e":
+			runE2E(d, cw, 200000+1000*int(d.Sub%97))
+		case "route":
+			if d.Shape == "rand" {
+				runRouteRand(d, cw)
+			} else {
+				routeAll(cw, &d)
+				routeMonitor()
+			}
+		}
+		cw.Close()
+		rep.Write(f.Out)
+		return
+	}
+
+	rng := hlib.NewRng(f.Seed)
+	id := 0
+	next := func(kind, shape string, sub uint64) Desc {
+		id++
+		return Desc{ID: id, Kind: kind, Shape: shape, Sub: sub}
+	}
+	// corpus first
+	for i, s := range []string{"empty-pop", "push-empty-list", "index0-empty-key", "grow-255-256", "grow-65535-65536", "push300-pop300", "grow-across-256-by-300", "kquai-tenant", "push1-vs-push", "copy-diverge", "huge-index"} {
+		runQueue(next("queue", s, uint64(1000+i)), cw)
+	}
+	for i, s := range blockShapes[:len(blockShapes)-1] {
+		for j := 0; j < 3; j++ {
+			runBlock(next("block", s, uint64(2000+10*i+j)), cw)
+		}
+	}
+	for i := 0; i < 6; i++ {
+		runChain(next("chain", "rand", uint64(3000+i)), cw)
+	}
+	for i := 0; i < 8; i++ {
+		runE2E(Desc{ID: 200000 + 1000*i, Kind: "e2e", Shape: "plan", Sub: uint64(i)}, cw, 200000+1000*i)
+	}
+	routeAll(cw, nil)
+	id += 1000
+	routeMonitor()
+	// generated
+	for i := 0; i < f.N; i++ {
+		runQueue(next("queue", "rand", rng.Next()), cw)
+	}
+	for i := 0; i < 3*f.N; i++ {
+		runBlock(next("block", blockShapes[rng.Intn(len(blockShapes))], rng.Next()), cw)
+	}
+	for i := 0; i < f.N; i++ {
+		runChain(next("chain", "rand", rng.Next()), cw)
+	}
+	for i := 0; i < f.N/30; i++ {
+		runE2E(Desc{ID: 300000 + 1000*i, Kind: "e2e", Shape: "rand", Sub: rng.Next()}, cw, 300000+1000*i)
+	}
+	for i := 0; i < f.N/4+5; i++ {
+		runRouteRand(next("route", "rand", rng.Next()), cw)
+	}
+	cw.Close()
+	rep.Exhaustive = false
+	rep.Write(f.Out)
+}
+
+func classOf(p string) string {
+	w := strings.Fields(p)
+	if len(w) > 3 {
+		w = w[:3]
+	}
+	return strings.Join(w, "-")
+}
+
+// routeAll writes the exhaustive routing cases (ids 100001..). With only != nil, just that one.
+func routeAll(cw *hlib.CaseWriter, only *Desc) {
+	id := 100000
+	for _, slice := range routeSlices() {
+		for ctx := 0; ctx < 3; ctx++ {
+			for order := 0; order < 3; order++ {
+				id++
+				d := Desc{ID: id, Kind: "route", Shape: "all", Sub: 0}
+				if only == nil || only.ID == id {
+					runRouteX(d, slice, ctx, order, cw)
+				}
+			}
+		}
+		id++
+		if only == nil || only.ID == id {
+			runLocX(Desc{ID: id, Kind: "route", Shape: "loc"}, slice, cw)
+		}
+	}
 }
